@@ -43,6 +43,10 @@ package edns
 //@   assert at store edns.ResponseWriter.size#1: !noedns && value != 65535 ==> 512 <= value && value <= 1232
 //@   assert at store edns.ResponseWriter.noedns#1: value == (msgOPT(req) == nil)
 //@   assert at call internal/dnsutil.NotSupported#1: req.Opcode > 0
+//@   # C19: the BADVERS reply is built from the request's own OPT (CancelWithRcode copies req.Extra); by then that OPT
+//@   # carries no option at all - in particular not the clamped client-subnet option SetEdns0 put there for forwarding -
+//@   # so no ECS option is ever returned to a client on this path either
+//@   assert at call (*middleware.Chain).CancelWithRcode#1: arg1 == dns.RcodeBadVers && len(opt.Option) == 0
 //@   ensures calls("internal/dnsutil.NotSupported") == 1 ==> calls("(*middleware.Chain).Next") == 0 && calls("(*middleware.Chain).Cancel") == 1
 //@
 //@ func (*EDNS).serveWire
